@@ -15,7 +15,7 @@ static int k_eq (hash_table_entry_t a, hash_table_entry_t b) { return *(const in
 static unsigned (*hfn[]) (hash_table_entry_t) = { h_const, h_id, h_mod2, h_mul };
 extern "C" {
 const char *ct_binding (void) { return "cxx"; }
-void *ct_alloc_new (void) { return yaep_alloc_new (NULL, NULL, NULL, NULL); }
+void *ct_alloc_new (void) { return yaep_alloc_new (ctm_malloc, ctm_calloc, ctm_realloc, ctm_free); }
 void ct_alloc_del (void *a) { yaep_alloc_del ((YaepAllocator *) a); }
 void *ct_ht_create (void *alloc, int size, int hashfn) { return new hash_table ((YaepAllocator *) alloc, size, hfn[hashfn], k_eq); }
 void ct_ht_delete (void *t) { delete (hash_table *) t; }
